@@ -468,6 +468,18 @@ pub fn serde_search() -> Option<(Vec<u8>, String)> {
         let tok = format!("json:{}", j).into_bytes();
         if let Some(d) = serde_check(&tok) { return Some((tok, d)); }
     }
+    // long identifiers: 1..=12 variants (up to 120 bytes), well-formed and with one malformed subtag at the end
+    let vs = ["1901", "1994", "1996", "fonipa", "fonxsamp", "valencia", "macos", "abcdefgh", "posix", "nedis", "rozaj", "biske"];
+    for head in ["de", "de-Latn-DE", "und", "abcdefgh-Latn-419"] {
+        let mut t = head.to_string();
+        for v in vs {
+            t.push('-'); t.push_str(v);
+            for tail in ["", "-x", "-toolongsubtag"] {
+                let tok = format!("{}{}", t, tail).into_bytes();
+                if let Some(d) = serde_check(&tok) { return Some((tok, d)); }
+            }
+        }
+    }
     let a = crate::reference::alphabet();
     let heads: Vec<&[u8]> = vec![b"en", b"und", b"EN", b"e", b"ca-ES", b"en\"x", b"en\\"];
     let mut buf: Vec<u8> = vec![];
@@ -626,20 +638,54 @@ pub fn ord_pair(a: &Locale, b: &Locale) -> Option<String> {
     if (a.id == b.id) != (a.id.to_string() == b.id.to_string()) { return Some(format!("identifier == disagrees with canonical strings: \"{}\" / \"{}\"", a.id, b.id)); }
     None
 }
+/// the same canonical text reached through a different route of the safe API (route 0 = parsing)
+pub const ORD_ROUTES: usize = 7;
+pub fn ord_route(route: usize, s: &str) -> Option<Locale> {
+    let mut l: Locale = s.parse().ok()?;
+    match route {
+        0 => {}
+        1 => { let v: Vec<Variant> = l.id.variants().cloned().collect(); l.id.set_variants(&v); }          // re-set the same variants (none: the empty slice)
+        2 => { if l.id.variants().len() == 0 { l.id.clear_variants(); } else { let mut v: Vec<Variant> = l.id.variants().cloned().collect(); v.reverse(); let d = v[0]; v.push(d); l.id.set_variants(&v); } }
+        3 => { let (lang, script, region, variants, ext) = l.clone().into_parts();                              // decomposition round trip
+               let mut v = variants.clone(); v.reverse(); if let Some(d) = v.first().cloned() { v.push(d); }
+               l = Locale::from_parts(lang, script, region, &v, Some(ext.parse::<ExtensionsMap>().ok()?)); }
+        4 => { l = s.to_uppercase().replace('-', "_").parse().ok()?; }                                          // other spelling
+        5 => { l.extensions.unicode.set_attribute("zzz").ok()?; l.extensions.unicode.remove_attribute("ZZZ").ok()?;   // add and take away again
+               l.extensions.unicode.set_keyword("zz", &["zzz"]).ok()?; l.extensions.unicode.remove_keyword("ZZ").ok()?;
+               l.extensions.transform.set_tfield("z9", &["zzz"]).ok()?; l.extensions.transform.remove_tfield("Z9").ok()?;
+               l.extensions.private.add_tag("zzz").ok()?; l.extensions.private.remove_tag("ZZZ").ok()?; }
+        _ => { let li: LanguageIdentifier = l.clone().into(); let e = l.extensions.clone(); l = Locale::from(li); l.extensions = e; }    // through LanguageIdentifier
+    }
+    Some(l)
+}
 /// bound: all ordered pairs of a pool of up to ~3800 locales (10 identifiers x 8 -t- x 12 -u- x 4 -x- shapes, incl. keyword values split
-/// differently across keys) are too many; the pool is thinned to every 3rd element (~1280 values, 1.6 M pairs) plus all pairs within one identifier
+/// differently across keys) are too many; the pool is thinned to every 3rd element (~1280 values, 1.6 M pairs) plus all pairs within one identifier;
+/// plus, for every pool string, the value parsed from it against the value reached through each of 6 other API routes, and a sample of cross pairs
 pub fn ord_search() -> Option<(Vec<u8>, String)> {
     let pool = ord_pool();
+    let tok = |ra: usize, a: &Locale, rb: usize, b: &Locale| format!("{}:{}\n{}:{}", ra, a, rb, b).into_bytes();
+    // other routes first (cheap): same text, different history
+    for a in pool.iter() {
+        let s = a.to_string();
+        for r in 1..ORD_ROUTES {
+            if let Some(b) = ord_route(r, &s) {
+                if let Some(d) = ord_pair(a, &b) { return Some((tok(0, a, r, &b), format!("{} [second value reached through API route {}]", d, r))); }
+                if let Some(d) = ord_pair(&b, a) { return Some((tok(r, &b, 0, a), format!("{} [first value reached through API route {}]", d, r))); }
+            } else { return Some((tok(0, a, r, a), format!("API route {} fails on \"{}\"", r, s))); }
+        }
+    }
+    let routed: Vec<(usize, Locale)> = pool.iter().step_by(29).enumerate().filter_map(|(i, l)| { let r = 1 + i % (ORD_ROUTES - 1); ord_route(r, &l.to_string()).map(|x| (r, x)) }).collect();
+    for (ra, a) in &routed { for (rb, b) in &routed { if let Some(d) = ord_pair(a, b) { return Some((tok(*ra, a, *rb, b), format!("{} [API routes {} / {}]", d, ra, rb))); } } }
     let thin: Vec<&Locale> = pool.iter().step_by(3).collect();
-    for a in &thin { for b in &thin { if let Some(d) = ord_pair(a, b) { return Some((format!("{}\n{}", a, b).into_bytes(), d)); } } }
+    for a in &thin { for b in &thin { if let Some(d) = ord_pair(a, b) { return Some((tok(0, a, 0, b), d)); } } }
     for a in pool.iter().filter(|l| l.id.to_string() == "en") { for b in pool.iter().filter(|l| l.id.to_string() == "en") {
-        if let Some(d) = ord_pair(a, b) { return Some((format!("{}\n{}", a, b).into_bytes(), d)); }
+        if let Some(d) = ord_pair(a, b) { return Some((tok(0, a, 0, b), d)); }
     } }
     // transitivity on a sample of triples
     let small: Vec<&Locale> = pool.iter().step_by(37).collect();
     for a in &small { for b in &small { for c in &small {
         if a.cmp(b) != std::cmp::Ordering::Greater && b.cmp(c) != std::cmp::Ordering::Greater && a.cmp(c) == std::cmp::Ordering::Greater {
-            return Some((format!("{}\n{}", a, c).into_bytes(), format!("cmp is not transitive: \"{}\" <= \"{}\" <= \"{}\" but the first is greater than the last", a, b, c)));
+            return Some((tok(0, a, 0, c), format!("cmp is not transitive: \"{}\" <= \"{}\" <= \"{}\" but the first is greater than the last", a, b, c)));
         }
     } } }
     None
@@ -647,5 +693,6 @@ pub fn ord_search() -> Option<(Vec<u8>, String)> {
 pub fn ord_replay(token: &[u8]) -> Option<String> {
     let t = String::from_utf8_lossy(token).to_string();
     let (a, b) = t.split_once('\n')?;
-    ord_pair(&a.parse().ok()?, &b.parse().ok()?)
+    let one = |x: &str| -> Option<Locale> { match x.split_once(':') { Some((r, s)) if r.len() == 1 && r.as_bytes()[0].is_ascii_digit() => ord_route(r.parse().ok()?, s), _ => x.parse().ok() } };
+    ord_pair(&one(a)?, &one(b)?)
 }
